@@ -13,12 +13,12 @@ import (
 
 func init() {
 	register(&Property{
-		ID:        "C18",
-		Roots:     []string{"asserts"},
-		Technique: "guarded-sink + loop-latch reachability on the SSA CFG of Database.Add/Check and the four default checkers; who-may-call Backstore.Put; constant table check of DefaultCheckers",
+		ID:          "C18",
+		Roots:       []string{"asserts"},
+		Technique:   "guarded-sink + loop-latch reachability on the SSA CFG of Database.Add/Check and the four default checkers; who-may-call Backstore.Put; constant table check of DefaultCheckers",
 		Explanation: "Structural necessary conditions for 'only correctly signed, currently valid assertions are accepted': (R1) Database.Add reaches the backstore Put only across Check(assert)==nil on the same assertion; (R2) Database.Check returns nil only with a supported format, a signing key found for (authority-id, sign-key-sha3-384) unless the type has no authority (then authority-id empty), and after the loop over ALL configured checkers advanced only across nil results; (R3) DefaultCheckers contains the four checkers, OpenDatabase falls back to it, and no non-test code configures its own checker list; (R4) CheckSignature returns nil only across verify(content, decodeSignature(sig))==nil on the bytes returned by assert.Signature(), authority==key account, canSign; (R5) findAccountKey only returns a key of the requested authority; the expiry and timestamp checkers return nil for a present key only across the validity predicates; (R6) the set of callers of Backstore.Put is the reviewed one.",
-		NotDecided: "the cryptography itself; the validity-window comparisons inside isValidAt/isValidAssumingCurTimeWithin; that a one-byte mutation changes the verified content.",
-		Run:        runC18,
+		NotDecided:  "the cryptography itself; the validity-window comparisons inside isValidAt/isValidAssumingCurTimeWithin; that a one-byte mutation changes the verified content.",
+		Run:         runC18,
 	})
 }
 
@@ -331,14 +331,14 @@ func runC18(c *Ctx) {
 	// ---- R6
 	c.Rule("C18-R6", "W", "callers of Backstore.Put (interface and concrete implementations) are the reviewed set", 4)
 	allowed := map[string]string{
-		"asserts.(*Database).Add":        "the checked path (R1)",
-		"asserts.OpenDatabase":           "built-in trusted / predefined assertions from the configuration",
-		"asserts.(*Batch).Add":           "staging memory store, later committed through Database.Add (CommitTo)",
-		"asserts.(*Pool).add":            "staging memory store, committed through Database.Add (CommitTo)",
-		"asserts.(*memoryBackstore).Put": "implementation delegating to its tree",
-		"cmd/snap-repair.trustedBackstore":   "snap-repair's dedicated trust root, built from compiled-in trusted assertions",
-		"cmd/snap-repair.findDevInfo16":      "snap-repair work store for seed account/account-key assertions; the model is then verified against it by verifySignatures",
-		"cmd/snap-repair.(*Runner).Verify":   "snap-repair work/trusted stores handed to verifySignatures (its own signature walk)",
+		"asserts.(*Database).Add":                              "the checked path (R1)",
+		"asserts.OpenDatabase":                                 "built-in trusted / predefined assertions from the configuration",
+		"asserts.(*Batch).Add":                                 "staging memory store, later committed through Database.Add (CommitTo)",
+		"asserts.(*Pool).add":                                  "staging memory store, committed through Database.Add (CommitTo)",
+		"asserts.(*memoryBackstore).Put":                       "implementation delegating to its tree",
+		"cmd/snap-repair.trustedBackstore":                     "snap-repair's dedicated trust root, built from compiled-in trusted assertions",
+		"cmd/snap-repair.findDevInfo16":                        "snap-repair work store for seed account/account-key assertions; the model is then verified against it by verifySignatures",
+		"cmd/snap-repair.(*Runner).Verify":                     "snap-repair work/trusted stores handed to verifySignatures (its own signature walk)",
 		"tests/lib/fakestore/store.(*Store).collectAssertions": "test-support fake store (not shipped in snapd)",
 	}
 	var putObjs []*types.Func
